@@ -72,6 +72,10 @@ type Operation struct {
 	// The commit index at the time the operation was submitted. Only applicable to
 	// linearizable and lease-based read-only operations.
 	readIndex uint64
+
+	// The number of heartbeat rounds that had been started when the operation was
+	// submitted. Only applicable to linearizable read-only operations.
+	round uint64
 }
 
 type operationManager struct {
@@ -100,6 +104,18 @@ func newOperationManager(leaseDuration time.Duration) *operationManager {
 func (r *operationManager) markAsVerified() {
 	for operation := range r.pendingReadOnly {
 		operation.quorumVerified = true
+	}
+	r.shouldVerifyQuorum = true
+}
+
+// markAsVerifiedBefore marks the operations that were submitted before the provided
+// heartbeat round started as verified. A round that started before an operation was
+// submitted says nothing about whether this node was still the leader afterwards.
+func (r *operationManager) markAsVerifiedBefore(round uint64) {
+	for operation := range r.pendingReadOnly {
+		if operation.round < round {
+			operation.quorumVerified = true
+		}
 	}
 	r.shouldVerifyQuorum = true
 }
